@@ -231,3 +231,56 @@ def search(rep: C.Report, tier: str, broken):
                     eom.particles = saved
             finally:
                 clean()
+    # ---- every admissible basis pair fed DIRECTLY (no basis change on the harness side, deviations with negative spectral coefficients):
+    # the deviation is given by random grid values, turned into the solver's coefficients with restricted Chebyshev matrices written here
+    # (T_n - 1 for even n / pp, T_n - x for odd n), and all four moments must equal the Gauss-Chebyshev-Lobatto momentum quadrature
+    # of those grid values; moments are odd in the deviation and the caller's array is an input, not scratch space
+    rb = C.rng("C13allbases")
+
+    def rcheb(x, ns, partial):
+        t = np.cos(ns[None, :] * np.arccos(x[:, None]))
+        return t - 1.0 if partial else t - np.where(ns[None, :] % 2 == 0, 1.0, x[:, None])
+    for N, Tscale in (((5, 1.0), (7, 0.3)) if tier == "quick" else ((5, 1.0), (7, 0.3), (9, 1.0), (5, 20.0), (11, 0.3))):
+        for bM, bN in bases:
+            solver, grid, parts, clean = B.make_solver(M=4, N=N, basisM=bM, basisN=bN, Tscale=Tscale, y2=(0.7,))
+            try:
+                solver.setBackground(B.background(grid, dphi=1.0 * Tscale, phi0=0.2 * Tscale, T0=Tscale))
+                W = _weights(solver, grid, parts)
+                n = N - 1
+                chi, rz, rp = np.asarray(grid.chiValues), np.asarray(grid.rzValues), np.asarray(grid.rpValues)
+                wp = np.full(n, math.pi / (N - 1))
+                wp[0] /= 2
+                q = (np.sqrt(1 - rz ** 2) * math.pi / N)[:, None] * (np.sqrt(1 - rp ** 2) * wp)[None, :]
+                vals = np.array([rb.uniform(-1, 1) for _ in range(3 * n * n)]).reshape(1, 3, n, n)
+                coef = vals
+                if bM == "Chebyshev":
+                    coef = np.einsum("ia,sajk->sijk", np.linalg.inv(rcheb(chi, np.arange(2, grid.M + 1), False)), coef)
+                if bN == "Chebyshev":
+                    coef = np.einsum("jb,sibk->sijk", np.linalg.inv(rcheb(rz, np.arange(2, N + 1), False)), coef)
+                    coef = np.einsum("kc,sijc->sijk", np.linalg.inv(rcheb(rp, np.arange(1, N), True)), coef)
+                coef = np.ascontiguousarray(coef, dtype=float)
+                keep = coef.copy()
+                res = solver.getDeltas(coef)
+                untouched = np.array_equal(coef, keep)
+                neg = solver.getDeltas(-keep)
+                info = {"N": N, "M": 4, "momentumFalloffT": grid.momentumFalloffT, "basisM": bM, "basisN": bN, "y2": 0.7, "deltaF_coefficients_in_solver_basis": keep.tolist(),
+                        "how": "boltz_common.make_solver(M=4, N, basisM, basisN, Tscale, y2=(0.7,)); setBackground(boltz_common.background(grid, dphi=Tscale, phi0=0.2*Tscale, T0=Tscale)); getDeltas(np.array(coefficients))"}
+                rep.count(f"direct-coefficient basis {bM}/{bN}")
+                if not untouched:
+                    rep.violation("getDeltas overwrote the caller's deltaF array (the moments are then those of a different deviation)",
+                                  dict(info, deltaF_after_call=coef.tolist()), finding_key="C13:allbases:inplace")
+                for nm in ("Delta00", "Delta02", "Delta20", "Delta11"):
+                    Wm = np.broadcast_to(W[nm], (1, 3, n, n))
+                    want = np.sum(Wm * vals * q[None, None], axis=(2, 3))
+                    sc = np.sum(np.abs(Wm * vals) * q[None, None], axis=(2, 3))
+                    got = getattr(res.Deltas, nm).coefficients
+                    gneg = getattr(neg.Deltas, nm).coefficients
+                    rep.case(key=("allbases", N, Tscale, bM, bN, nm))
+                    if not np.all(np.abs(got - want) <= 1e-9 * sc):
+                        rep.violation(f"{nm} differs from the direct momentum quadrature of the deviation's grid values",
+                                      dict(info, moment=nm, got=got.tolist(), direct_quadrature=want.tolist()), finding_key="C13:allbases")
+                    if not np.all(np.abs(gneg + got) <= 1e-10 * sc):
+                        rep.violation(f"{nm} of -deltaF is not minus {nm} of deltaF", dict(info, moment=nm, got=got.tolist(), got_for_minus_deltaF=gneg.tolist()),
+                                      finding_key="C13:allbases:odd")
+            finally:
+                clean()
